@@ -339,7 +339,7 @@ def run_cases(exe, cases, tmpdir, tag, nshards=None, timeout=600, env=None, per_
             want = j['hi'] - j['lo']
             for i, l in enumerate(complete[:want]):
                 results[j['lo'] + i] = l
-            if got < want and rc == 124 and (got > 0 or j['attempt'] < 1):
+            if got < want and rc == 124 and (got > 0 or (j['attempt'] < 1 and j['limit'] < 1200)):
                 # the SHARD ran out of wall time (slow / loaded machine), which says nothing about the case in
                 # flight: resume at that case with a longer limit; only a case that makes no progress at all
                 # in two attempts (the second with twice the limit) is reported as CRASH(timeout)
